@@ -792,3 +792,361 @@ pub proof fn lemma_archqual_of(n0: Tree, a0: Seq<Tree>, tailp: Seq<Tree>, aq: Op
         }
     }
 }
+
+// ---- alternatives, entries, the field ------------------------------------------------------------------------------------------------
+pub open spec fn alts_text(rs: Seq<RelV>) -> Seq<char>
+    decreases rs.len()
+{
+    if rs.len() == 0 { Seq::empty() }
+    else if rs.len() == 1 { rel_text(rs[0]) }
+    else { rel_text(rs[0]) + seq![' ', '|', ' '] + alts_text(rs.skip(1)) }
+}
+pub open spec fn field_text(es: Seq<Seq<RelV>>) -> Seq<char>
+    decreases es.len()
+{
+    if es.len() == 0 { Seq::empty() }
+    else if es.len() == 1 { alts_text(es[0]) }
+    else { alts_text(es[0]) + seq![',', ' '] + field_text(es.skip(1)) }
+}
+pub open spec fn valid_alts(rs: Seq<RelV>) -> bool { rs.len() > 0 && forall|i: int| 0 <= i < rs.len() ==> valid_rel_ll(#[trigger] rs[i]) }
+pub open spec fn valid_field(es: Seq<Seq<RelV>>) -> bool { forall|i: int| 0 <= i < es.len() ==> valid_alts(#[trigger] es[i]) }
+
+pub proof fn lemma_kind_filter_add(a: Seq<Tree>, b: Seq<Tree>, k: SyntaxKind)
+    ensures kind_filter(a + b, k) == kind_filter(a, k) + kind_filter(b, k)
+    decreases b.len()
+{
+    if b.len() == 0 {
+        assert(a + b =~= a);
+        assert(kind_filter(a, k) + kind_filter(b, k) =~= kind_filter(a, k));
+    } else {
+        lemma_kind_filter_add(a, b.drop_last(), k);
+        assert((a + b).drop_last() =~= a + b.drop_last());
+        assert((a + b).last() == b.last());
+        assert(kind_filter(a + b, k) =~= kind_filter(a, k) + kind_filter(b, k));
+    }
+}
+pub proof fn lemma_kind_filter_single(x: Tree, k: SyntaxKind)
+    ensures kind_filter(seq![x], k) == if rowan::tree_kind(x) == k { seq![x] } else { Seq::<Tree>::empty() }
+{
+    let s = seq![x];
+    assert(s.drop_last() =~= Seq::<Tree>::empty());
+    assert(kind_filter(s.drop_last(), k) =~= Seq::<Tree>::empty());
+    assert(s.last() == x);
+    if rowan::tree_kind(x) == k { assert(kind_filter(s, k) =~= seq![x]); } else { assert(kind_filter(s, k) =~= Seq::<Tree>::empty()); }
+}
+pub proof fn lemma_child_nodes_toks(s: Seq<Tree>)
+    requires all_tok(s)
+    ensures rowan::child_nodes(s) == Seq::<Tree>::empty()
+    decreases s.len()
+{
+    if s.len() > 0 {
+        assert forall|i: int| 0 <= i < s.drop_last().len() implies (#[trigger] s.drop_last()[i]) is Tok by { assert(s.drop_last()[i] == s[i]); }
+        lemma_child_nodes_toks(s.drop_last());
+        assert(s.last() is Tok);
+    }
+}
+/// the RELATION children expose the alternatives' names and qualifiers
+pub open spec fn rels_ok(elems: Seq<Tree>, rs: Seq<RelV>) -> bool {
+    let r = kind_filter(rowan::child_nodes(elems), RELATION);
+    &&& r.len() == rs.len()
+    &&& forall|j: int| 0 <= j < rs.len() ==> t_name(#[trigger] r[j]) == Some(rs[j].name) && t_archqual(r[j]) == rs[j].archqual
+}
+pub proof fn lemma_alts_sep(rs: Seq<RelV>, t: Seq<char>)
+    requires rs.len() > 0, t.len() == 0 || t[0] == ','
+    ensures rs.len() > 1 ==> sep_start(seq![' ', '|', ' '] + alts_text(rs.skip(1)) + t), sep_start(t)
+{
+    if rs.len() > 1 {
+        let s = seq![' ', '|', ' '] + alts_text(rs.skip(1)) + t;
+        assert(s[0] == ' ' && s[1] == '|');
+    }
+}
+pub proof fn lemma_q_alts(rs: Seq<RelV>, t: Seq<char>)
+    requires valid_alts(rs), t.len() == 0 || t[0] == ','
+    ensures ({
+        let x = q_alts(rel_tokens_of(alts_text(rs) + t));
+        &&& x.2 == 0 && ws_equiv(x.1, rel_tokens_of(t)) && rels_ok(x.0, rs)
+    })
+    decreases rs.len()
+{
+    let v = rs[0];
+    let rest = rs.skip(1);
+    lemma_alts_sep(rs, t);
+    let tt: Seq<char> = if rs.len() == 1 { t } else { seq![' ', '|', ' '] + alts_text(rest) + t };
+    assert(alts_text(rs) + t =~= rel_text(v) + tt);
+    lemma_q_relation(v, tt);
+    let ts = rel_tokens_of(alts_text(rs) + t);
+    let r = q_relation(ts);
+    let w = q_ws(r.1);
+    lemma_q_ws_toks(r.1);
+    lemma_child_nodes_single(r.0);
+    lemma_kind_filter_single(r.0, RELATION);
+    if rs.len() == 1 {
+        lemma_sep_peek(t);
+        // COMMA or the end
+        let x = q_alts(ts);
+        if q_peek(r.1) == Some(COMMA) { assert(x == (seq![r.0], r.1, r.2)); }
+        else {
+            assert(q_peek(r.1) is None) by { if t.len() > 0 { assert(t =~= seq![','] + t.skip(1)); lemma_lex_delim(',', t.skip(1)); lemma_no_ws_head(t); } }
+            assert(x == (seq![r.0] + w.0, w.1, r.2));
+            lemma_q_ws_idem(r.1);
+            lemma_child_nodes_add(seq![r.0], w.0);
+            lemma_child_nodes_toks(w.0);
+            assert(rowan::child_nodes(x.0) =~= seq![r.0]);
+        }
+        assert(kind_filter(rowan::child_nodes(x.0), RELATION) =~= seq![r.0]);
+        assert(rs =~= seq![v]);
+    } else {
+        assert forall|i: int| 0 <= i < rest.len() implies valid_rel_ll(#[trigger] rest[i]) by { assert(rest[i] == rs[i + 1]); }
+        let after = alts_text(rest) + t;
+        assert(tt =~= seq![' ', '|'] + (seq![' '] + after));
+        lemma_q_space_delim('|', seq![' '] + after);
+        // w.1 = [PIPE] + tokens(" " + after)
+        assert(w.1 == seq![(PIPE, seq!['|'])] + rel_tokens_of(seq![' '] + after));
+        assert(q_peek(r.1) == Some(PIPE));
+        let t1 = w.1.skip(1);
+        assert(t1 =~= rel_tokens_of(seq![' '] + after));
+        // after starts with a name
+        assert(no_ws_start(after) && after[0] != '\n') by {
+            let v1 = rest[0];
+            assert(valid_rel_ll(v1));
+            assert(after[0] == v1.name[0]) by {
+                if rest.len() == 1 { assert(alts_text(rest) == rel_text(v1)); } else { }
+                assert(rel_text(v1)[0] == v1.name[0]);
+            }
+        }
+        lemma_q_ws_space(after);
+        let w2 = q_ws(t1);
+        assert(w2.1 == rel_tokens_of(after));
+        lemma_q_alts(rest, t);
+        let x2 = q_alts(w2.1);
+        lemma_q_ws_len(r.1);
+        lemma_tokens_nonempty_rel(v, tt);
+        let x = q_alts(ts);
+        assert(w2.1.len() < ts.len()) by { lemma_q_relation_len(ts); lemma_q_ws_len(t1); }
+        assert(x == (seq![r.0] + w.0 + seq![leaf(w.1[0])] + w2.0 + x2.0, x2.1, r.2 + x2.2));
+        // the RELATION nodes: this one, then those of the rest
+        lemma_q_ws_toks(t1);
+        let mid = w.0 + seq![leaf(w.1[0])] + w2.0;
+        assert(all_tok(mid));
+        lemma_child_nodes_toks(mid);
+        assert(x.0 =~= (seq![r.0] + mid) + x2.0);
+        lemma_child_nodes_add(seq![r.0] + mid, x2.0);
+        lemma_child_nodes_add(seq![r.0], mid);
+        let cn2 = rowan::child_nodes(x2.0);
+        assert(rowan::child_nodes(x.0) =~= seq![r.0] + cn2);
+        lemma_kind_filter_add(seq![r.0], cn2, RELATION);
+        let k2 = kind_filter(cn2, RELATION);
+        let kk = kind_filter(rowan::child_nodes(x.0), RELATION);
+        assert(kk =~= seq![r.0] + k2);
+        assert forall|j: int| 0 <= j < rs.len() implies t_name(#[trigger] kk[j]) == Some(rs[j].name) && t_archqual(kk[j]) == rs[j].archqual by {
+            if j > 0 { assert(kk[j] == k2[j - 1]); assert(rs[j] == rest[j - 1]); }
+        }
+    }
+}
+/// q_relation never returns more tokens than it got, and fewer when there were any
+pub proof fn lemma_q_relation_len(ts: Seq<RTok>)
+    ensures q_relation(ts).1.len() <= ts.len()
+{
+    let n = q_expect(ts, IDENT);
+    let a = q_after_name(n.1);
+    lemma_q_ws_len(n.1);
+    let w = q_ws(n.1);
+    if q_peek(n.1) == Some(COLON) { lemma_q_ws_len(w.1.skip(1)); let e = q_expect(q_ws(w.1.skip(1)).1, IDENT); lemma_q_ws_len(e.1); }
+    let v = q_opt_version(a.1);
+    lemma_q_ws_len(a.1);
+    if q_peek(a.1) == Some(L_PARENS) {
+        let y = q_ws(a.1).1;
+        lemma_q_ws_len(y.skip(1));
+        let o = q_ops(q_ws(y.skip(1)).1); lemma_q_ops_len(q_ws(y.skip(1)).1);
+        lemma_q_ws_len(o.1);
+        let w2 = q_ws(o.1);
+        if is_k(w2.1, IDENT) { lemma_q_vrest_len(w2.1.skip(1)); }
+    }
+    let ar = q_opt_archs(v.1);
+    lemma_q_ws_len(v.1);
+    if q_peek(v.1) == Some(L_BRACKET) { lemma_q_archs_len(q_ws(v.1).1.skip(1)); }
+    lemma_q_profiles_len(ar.1);
+}
+pub proof fn lemma_q_profiles_len(ts: Seq<RTok>)
+    ensures q_profiles(ts).1.len() <= ts.len()
+    decreases ts.len()
+{
+    if q_peek(ts) == Some(L_ANGLE) {
+        lemma_q_ws_len(ts);
+        let w = q_ws(ts);
+        lemma_q_profs_len(w.1.skip(1));
+        let p = q_profs(w.1.skip(1));
+        if p.1.len() < ts.len() { lemma_q_profiles_len(p.1); }
+    }
+}
+pub proof fn lemma_tokens_nonempty_rel(v: RelV, t: Seq<char>) { }
+
+/// the ENTRY children of the root expose the entries
+pub open spec fn entries_ok(items: Seq<Tree>, es: Seq<Seq<RelV>>) -> bool {
+    let e = kind_filter(rowan::child_nodes(items), ENTRY);
+    &&& e.len() == es.len()
+    &&& forall|i: int| 0 <= i < es.len() ==> rels_ok(rowan::tree_children(#[trigger] e[i]), es[i])
+}
+/// a field begins with a package name
+pub proof fn lemma_field_head(es: Seq<Seq<RelV>>)
+    requires valid_field(es), es.len() > 0
+    ensures field_text(es).len() > 0, is_ident_s(field_text(es)[0])
+{
+    let rs = es[0];
+    assert(valid_alts(rs));
+    let v = rs[0];
+    assert(valid_rel_ll(v));
+    assert(rel_text(v)[0] == v.name[0]);
+    assert(alts_text(rs)[0] == v.name[0]);
+}
+pub proof fn lemma_ident_head_tok(s: Seq<char>)
+    requires s.len() > 0, is_ident_s(s[0])
+    ensures rel_tokens_of(s).len() > 0, rel_tokens_of(s)[0].0 == IDENT
+{
+    lemma_run_ident_bounds(s);
+}
+pub proof fn lemma_q_items(es: Seq<Seq<RelV>>)
+    requires valid_field(es)
+    ensures q_items(rel_tokens_of(field_text(es)), false).1 == 0, entries_ok(q_items(rel_tokens_of(field_text(es)), false).0, es)
+    decreases es.len()
+{
+    let ts = rel_tokens_of(field_text(es));
+    if es.len() == 0 {
+        assert(field_text(es) =~= Seq::<char>::empty());
+        assert(ts =~= Seq::<RTok>::empty());
+        assert(rowan::child_nodes(Seq::<Tree>::empty()) =~= Seq::<Tree>::empty());
+        assert(kind_filter(Seq::<Tree>::empty(), ENTRY) =~= Seq::<Tree>::empty());
+    } else {
+        let rs = es[0];
+        let rest = es.skip(1);
+        assert(valid_alts(rs));
+        assert forall|i: int| 0 <= i < rest.len() implies valid_alts(#[trigger] rest[i]) by { assert(rest[i] == es[i + 1]); }
+        lemma_field_head(es);
+        lemma_ident_head_tok(field_text(es));
+        let t: Seq<char> = if es.len() == 1 { Seq::empty() } else { seq![',', ' '] + field_text(rest) };
+        assert(field_text(es) =~= alts_text(rs) + t);
+        lemma_q_alts(rs, t);
+        // q_entry: no blanks in front of the first name
+        assert(q_ws(ts) == (Seq::<Tree>::empty(), ts));
+        let al = q_alts(ts);
+        let en = q_entry(ts);
+        assert(en == (Seq::<Tree>::empty() + seq![node(ENTRY, al.0)], al.1, al.2));
+        let item = q_item(ts, false);
+        let w = q_ws(en.1);
+        lemma_q_ws_toks(en.1);
+        lemma_child_nodes_single(node(ENTRY, al.0));
+        lemma_kind_filter_single(node(ENTRY, al.0), ENTRY);
+        lemma_child_nodes_toks(w.0);
+        if es.len() == 1 {
+            assert(rel_tokens_of(t) =~= Seq::<RTok>::empty());
+            assert(w.1.len() == 0);
+            assert(item == (en.0 + w.0, w.1, en.2));
+            let items = q_items(ts, false);
+            assert(items == (item.0, item.2));
+            lemma_child_nodes_add(en.0, w.0);
+            assert(en.0 =~= seq![node(ENTRY, al.0)]);
+            assert(rowan::child_nodes(items.0) =~= seq![node(ENTRY, al.0)]);
+            assert(kind_filter(rowan::child_nodes(items.0), ENTRY) =~= seq![node(ENTRY, al.0)]);
+        } else {
+            let ft = field_text(rest);
+            assert(t =~= seq![','] + (seq![' '] + ft));
+            lemma_lex_delim(',', seq![' '] + ft);
+            lemma_no_ws_head(t);
+            // w.1 = tokens(t) = [COMMA] + tokens(" " + rest)
+            assert(w.1 == rel_tokens_of(t));
+            assert(w.1[0].0 == COMMA);
+            let t1 = w.1.skip(1);
+            assert(t1 =~= rel_tokens_of(seq![' '] + ft));
+            lemma_field_head(rest);
+            lemma_q_ws_space(ft);
+            let w2 = q_ws(t1);
+            assert(w2.1 == rel_tokens_of(ft));
+            lemma_q_ws_toks(t1);
+            assert(item == (en.0 + w.0 + seq![leaf(w.1[0])] + w2.0, w2.1, en.2 + 0));
+            lemma_q_items(rest);
+            let r = q_items(w2.1, false);
+            lemma_ident_head_tok(ft);
+            lemma_q_ws_len(en.1); lemma_q_ws_len(t1);
+            lemma_q_alts_len(ts);
+            assert(item.1.len() > 0 && item.1.len() < ts.len());
+            let items = q_items(ts, false);
+            assert(items == (item.0 + r.0, item.2 + r.1));
+            // ENTRY nodes: this one, then those of the rest
+            let mid = w.0 + seq![leaf(w.1[0])] + w2.0;
+            assert(all_tok(mid));
+            lemma_child_nodes_toks(mid);
+            assert(en.0 =~= seq![node(ENTRY, al.0)]);
+            assert(items.0 =~= (seq![node(ENTRY, al.0)] + mid) + r.0);
+            lemma_child_nodes_add(seq![node(ENTRY, al.0)] + mid, r.0);
+            lemma_child_nodes_add(seq![node(ENTRY, al.0)], mid);
+            let cn2 = rowan::child_nodes(r.0);
+            assert(rowan::child_nodes(items.0) =~= seq![node(ENTRY, al.0)] + cn2);
+            lemma_kind_filter_add(seq![node(ENTRY, al.0)], cn2, ENTRY);
+            let k2 = kind_filter(cn2, ENTRY);
+            let kk = kind_filter(rowan::child_nodes(items.0), ENTRY);
+            assert(kk =~= seq![node(ENTRY, al.0)] + k2);
+            assert forall|i: int| 0 <= i < es.len() implies rels_ok(rowan::tree_children(#[trigger] kk[i]), es[i]) by {
+                if i > 0 { assert(kk[i] == k2[i - 1]); assert(es[i] == rest[i - 1]); }
+            }
+        }
+    }
+}
+pub proof fn lemma_q_alts_len(ts: Seq<RTok>)
+    ensures q_alts(ts).1.len() <= ts.len()
+    decreases ts.len()
+{
+    lemma_q_relation_len(ts);
+    let r = q_relation(ts);
+    lemma_q_ws_len(r.1);
+    let w = q_ws(r.1);
+    let p = q_peek(r.1);
+    if p == Some(COMMA) || p is None { }
+    else if p == Some(PIPE) {
+        lemma_q_ws_len(w.1.skip(1));
+        let w2 = q_ws(w.1.skip(1));
+        if w2.1.len() < ts.len() { lemma_q_alts_len(w2.1); }
+    } else {
+        let e = q_err(w.1);
+        if e.1.len() < ts.len() { lemma_q_alts_len(e.1); }
+    }
+}
+
+// ---- the theorem ----------------------------------------------------------------------------------------------------------------------
+/// C10 on the canonical text (and the second clause of C14): a field of entries of alternatives of valid relations,
+/// written as the lossy printer writes it, is accepted by the strict lossless reader without error, and its tree
+/// exposes the same entries, the same alternatives in each, and each relation's name and architecture qualifier
+pub proof fn theorem_canonical_field_accepted(es: Seq<Seq<RelV>>)
+    requires valid_field(es)
+    ensures
+        parse_rel_text(field_text(es), false).1 == 0,
+        rowan::tree_kind(parse_rel_text(field_text(es), false).0) == ROOT,
+        t_entries(parse_rel_text(field_text(es), false).0).len() == es.len(),
+        forall|i: int| 0 <= i < es.len() ==> rels_ok(rowan::tree_children(#[trigger] t_entries(parse_rel_text(field_text(es), false).0)[i]), es[i]),
+{
+    let ts = rel_tokens_of(field_text(es));
+    lemma_q_items(es);
+    if es.len() > 0 { lemma_field_head(es); lemma_ident_head_tok(field_text(es)); }
+    else { assert(field_text(es) =~= Seq::<char>::empty()); assert(ts =~= Seq::<RTok>::empty()); }
+    assert(q_ws(ts) == (Seq::<Tree>::empty(), ts));
+    let it = q_items(ts, false);
+    let root = q_root(ts, false);
+    assert(root.0 == node(ROOT, Seq::<Tree>::empty() + it.0));
+    assert(Seq::<Tree>::empty() + it.0 =~= it.0);
+}
+/// the domain is inhabited
+pub proof fn lemma_valid_field_inhabited(ver: debversion::Version)
+    requires version_ok(ver), is_ident_s(version_text(ver)[0])
+    ensures exists|es: Seq<Seq<RelV>>| valid_field(es) && es.len() == 2 && es[0].len() == 2
+{
+    let a = RelV { name: seq!['a'], archqual: Some(seq!['x']), version: Some((dc_relations::VersionConstraint::Equal, ver)), archs: Some(seq![seq!['!', 'b']]), profiles: seq![seq![(true, seq!['p'])]] };
+    let b = RelV { name: seq!['b'], archqual: None, version: None, archs: None, profiles: Seq::empty() };
+    assert(seq!['!', 'b'].skip(1) =~= seq!['b']);
+    assert(arch_ok(seq!['!', 'b']));
+    assert(group_ok(seq![(true, seq!['p'])]));
+    assert(valid_rel_ll(a));
+    assert(valid_rel_ll(b));
+    let es = seq![seq![a, b], seq![b]];
+    assert(valid_alts(seq![a, b]));
+    assert(valid_alts(seq![b]));
+    assert(valid_field(es));
+}
